@@ -446,6 +446,23 @@ def g_simplices(ctx, rng, i):
             _try(lambda: tet.volume)
             _try(lambda: tet.area)
             _try(lambda: tet == g.Simplex(P[1], P[0], P[3], P[2]))
+    # integer homogeneous representatives with w != 1 (fractional Cartesian coordinates held in an integer array), simplices of every
+    # dimension k <= dim
+    W = [np.append(gen.coords(rng, (dim,), 9, "int"), int(gen.pick(rng, [2, 3, -2, 5, 1]))) for _ in range(4)]
+    Q = [g.Point(w) for w in W]
+    for k in range(2, dim + 2):
+        sx = _try(g.Simplex, *Q[:k])
+        if sx is not None:
+            _try(lambda: sx.volume)
+    t2 = _try(g.Triangle, *Q[:3])
+    if t2 is not None:
+        _try(lambda: t2.volume)
+        _try(lambda: t2.area)
+        _try(lambda: t2.centroid)
+    s2 = _try(g.Segment, Q[0], Q[1])
+    if s2 is not None:
+        _try(lambda: s2.length)
+        _try(lambda: s2.midpoint)
     # collections of segments
     A = np.stack([gen.finite_point(rng, dim, 7, mode) for _ in range(3)])
     B = np.stack([gen.finite_point(rng, dim, 7, mode) for _ in range(3)])
